@@ -1014,6 +1014,9 @@ class C11(PropCheck):
                        clist(out['events']), clist([cerow(x, y) for x, y in zip(out['X'], out['Y'])]), cz(out['n_evidence']),
                        cnat(out['n_batches']), cz(out['last_gp']), alog, clist([cbool(o) for o in out['optlog']]), sup))
         if k == 'grad':
+            if not np.all(np.isfinite(np.array([out['mean'], out['var']] + list(out['gm']) + list(out['gv']), dtype=float))):
+                self.bump('grad_surrogate_nonfinite_skipped')
+                return None
             terms = []
             for j in range(case['dim']):
                 terms.append('(CGrad {| g_beta := %s; g_mean := %s; g_var := %s; g_gmean := %s; g_gvar := %s; g_sqrt := %s; '
@@ -1026,6 +1029,13 @@ class C11(PropCheck):
                 return None
             steps = []
             for st in out['steps']:
+                if not np.all(np.isfinite(np.array([st['mean'], st['var']] + list(st['gm']) + list(st['gv']), dtype=float))):
+                    # GPy's own predict / predictive_gradients answered nan or inf (a degenerate hyperparameter fit after
+                    # update(optimize=True)): the surrogate gives the acquisition nothing to differentiate, the step is
+                    # outside what the gradient clause quantifies over (the python clauses still compare the stale and the
+                    # fresh object on it, nan with nan)
+                    self.bump('hist_step_surrogate_nonfinite_skipped')
+                    continue
                 steps.append('{| h_beta := %s; h_mean := %s; h_var := %s; h_gmean := %s; h_gvar := %s; h_sqrt := %s; h_val := %s; '
                              'h_grad := %s; h_fval := %s; h_fgrad := %s; h_fd := %s; h_fd2 := %s; h_aux := %s |}'
                              % (cq(st['beta']), cq(st['mean']), cq(st['var']), crow(st['gm']), crow(st['gv']),
